@@ -80,13 +80,17 @@ func (d *Provider) Block() {
 		return
 	}
 	for key, defaultVal := range d.defaultInstances {
-		if _, ok := d.instances[key]; !ok {
-			if d.autoclean {
-				delete(d.defaultFactories, key)
-				delete(d.factories, key)
-			}
-			d.instances[key] = defaultVal
+		if _, ok := d.instances[key]; ok {
+			continue
 		}
+		if _, ok := d.factories[key]; ok {
+			// an explicit factory wins over a default instance
+			continue
+		}
+		if d.autoclean {
+			delete(d.defaultFactories, key)
+		}
+		d.instances[key] = defaultVal
 	}
 	d.defaultInstances = nil
 	d.blocked = true
@@ -104,13 +108,13 @@ func (d *Provider) Get(name string) (interface{}, error) {
 	if factory, exist := d.factories[name]; exist {
 		d.callstack = append(d.callstack, name)
 		instance, err := factory(d)
+		d.callstack = d.callstack[:len(d.callstack)-1]
 		if err != nil {
-			return nil, goaterr.Errorf("%v (dependency callstack: %v)", err, d.callstack)
+			return nil, goaterr.Errorf("%v (dependency callstack: %v)", err, append(d.callstack, name))
 		}
 		if instance == nil {
 			return nil, goaterr.Errorf("factory for %s return nil as instance", name)
 		}
-		d.callstack = d.callstack[:len(d.callstack)-1]
 		d.clean(name)
 		d.instances[name] = instance
 		return instance, nil
@@ -118,13 +122,13 @@ func (d *Provider) Get(name string) (interface{}, error) {
 	if factory, exist := d.defaultFactories[name]; exist {
 		d.callstack = append(d.callstack, name)
 		instance, err := factory(d)
+		d.callstack = d.callstack[:len(d.callstack)-1]
 		if err != nil {
-			return nil, goaterr.Errorf("%v (dependency callstack: %v)", err, d.callstack)
+			return nil, goaterr.Errorf("%v (dependency callstack: %v)", err, append(d.callstack, name))
 		}
 		if instance == nil {
 			return nil, goaterr.Errorf("default factory for %s return nil as instance", name)
 		}
-		d.callstack = d.callstack[:len(d.callstack)-1]
 		if d.autoclean {
 			delete(d.defaultFactories, name)
 		}
